@@ -73,16 +73,34 @@ theorem mem_isort {α} (le : α → α → Bool) (a : α) (l : List α) : a ∈ 
 /-! ### one trimmed header line -/
 
 theorem mStr_rstrip (w : Str) : mStr (some (rstrip w)) = mStr (some w) := by simp [mStr, strip_rstrip]
-theorem mInt_rstrip (w : Str) : mInt (some (rstrip w)) = mInt (some w) := by simp [mInt, readInt_rstrip]
-theorem mFloat_rstrip (w : Str) : mFloat (some (rstrip w)) = mFloat (some w) := by simp [mFloat, readFloat_rstrip]
-theorem mBool_rstrip (w : Str) : mBool (some (rstrip w)) = mBool (some w) := by simp [mBool, readBoolInt_rstrip]
+theorem ite_ok_imp {c : Prop} [Decidable c] {a b a' b' : Except Err Meta} {r : Meta}
+    (h1 : a = .ok r → a' = .ok r) (h2 : b = .ok r → b' = .ok r) :
+    (if c then a else b) = .ok r → (if c then a' else b') = .ok r := by
+  split <;> assumption
 
 /-- every conversion of the key table except `Tags` trims (or parses after trimming) its value, so the trailing
-blanks that the line-level `strip` removed make no difference -/
-theorem metaAssign_rstrip (m : Meta) (k w : Str) (hk : k ≠ "Tags".toList) :
-    metaAssign m k (some (rstrip w)) = metaAssign m k (some w) := by
-  unfold metaAssign
-  simp only [mStr_rstrip, mInt_rstrip, mFloat_rstrip, mBool_rstrip, if_neg hk]
+blanks that the line-level `strip` removed make no difference to a value that is accepted (a numeric value containing
+one of \x1c–\x1f is rejected by `int()` / `float()` although `strip()` would remove it — hence one direction only) -/
+theorem metaAssign_rstrip (m m' : Meta) (k w : Str) (hk : k ≠ "Tags".toList)
+    (h : metaAssign m k (some w) = .ok m') : metaAssign m k (some (rstrip w)) = .ok m' := by
+  cases hs : w.any isSep with
+  | false =>
+    have e1 : mInt (some (rstrip w)) = mInt (some w) := by simp only [mInt, readInt, numPrep_rstrip w hs]
+    have e2 : mFloat (some (rstrip w)) = mFloat (some w) := by simp only [mFloat, readFloat, numPrep_rstrip w hs]
+    have e3 : mBool (some (rstrip w)) = mBool (some w) := by
+      simp only [mBool, readBoolInt, readInt, numPrep_rstrip w hs]
+    rw [← h]
+    unfold metaAssign
+    simp only [mStr_rstrip, e1, e2, e3, if_neg hk]
+  | true =>
+    have e1 : mInt (some w) = .error .value := by simp only [mInt, readInt, numPrep_of_sep w hs]
+    have e2 : mFloat (some w) = .error .value := by simp only [mFloat, readFloat, numPrep_of_sep w hs]
+    have e3 : mBool (some w) = .error .value := by
+      simp only [mBool, readBoolInt, readInt, numPrep_of_sep w hs]; rfl
+    revert h
+    unfold metaAssign
+    simp only [mStr_rstrip, e1, e2, e3, if_neg hk]
+    repeat' (first | exact id | (intro h; cases h; done) | apply ite_ok_imp)
 
 /-- a line whose key part is neither in the table nor one of the two markers changes nothing -/
 theorem metaStep_skip (m : Meta) (line : Str) (rest : List Str)
@@ -111,7 +129,7 @@ theorem metaStep_kvLine (m m' : Meta) (key : String) (w : Str) (rest : List Str)
     metaStep m (kvLine key w) rest = .ok m' := by
   unfold kvLine
   apply metaStep_key_value m m' _ _ rest hk hb hs
-  rw [metaAssign_rstrip m _ w ht]; exact ha
+  exact metaAssign_rstrip m m' _ w ht ha
 
 /-! ### the written header, line by line (generated from the key table; see /tmp generator in the commit message) -/
 
